@@ -3,6 +3,7 @@
 //! result line `(<id> <payload>)` per job.  Every library call runs under catch_unwind.
 mod builder;
 mod circ;
+mod lit;
 mod sexp;
 
 use sexp::*;
@@ -15,6 +16,7 @@ fn run_job(job: &Sexp) -> String {
         "regalloc" => circ::job_regalloc(job),
         "compile" => circ::job_compile(job),
         "builder" => builder::job_builder(job),
+        "literal" => lit::job_literal(job),
         k => format!("(unknown-kind {k})"),
     }
 }
